@@ -127,7 +127,7 @@ static ppointer thr_body_tls(ppointer a) { PUThread *me = p_uthread_current(); (
 static void *foreign_thread(void *a) { PUThread *me = p_uthread_current(); (void)me; return a; }
 
 static void st_tree(void) { int t; for (t = 0; t < 3; t++) { PTree *tr = p_tree_new((PTreeType)t, cmp_int); int i; for (i = 0; i < 6; i++) p_tree_insert(tr, P_INT_TO_POINTER(i * 7 % 5 + 1), NULL); p_tree_remove(tr, P_INT_TO_POINTER(3)); p_tree_free(tr); } }
-static void st_hash(void) { PHashTable *h = p_hash_table_new(); PList *l; p_hash_table_insert(h, P_INT_TO_POINTER(1), NULL); p_hash_table_insert(h, P_INT_TO_POINTER(102), NULL); l = p_hash_table_keys(h); p_list_free(l); p_hash_table_remove(h, P_INT_TO_POINTER(1)); p_hash_table_free(h); l = p_list_append(NULL, NULL); l = p_list_prepend(l, NULL); l = p_list_reverse(l); p_list_free(l); }
+static void st_hash(void) { PHashTable *h = p_hash_table_new(); PList *l; p_hash_table_insert(h, P_INT_TO_POINTER(1), NULL); p_hash_table_insert(h, P_INT_TO_POINTER(102), NULL); p_hash_table_insert(h, P_INT_TO_POINTER(203), NULL); p_hash_table_insert(h, P_INT_TO_POINTER(304), NULL); p_hash_table_insert(h, P_INT_TO_POINTER(7), NULL); l = p_hash_table_keys(h); p_list_free(l); l = p_hash_table_values(h); p_list_free(l); p_hash_table_remove(h, P_INT_TO_POINTER(1)); p_hash_table_free(h);      /* freed with a chain of three nodes in one bucket */ l = p_list_append(NULL, NULL); l = p_list_prepend(l, NULL); l = p_list_reverse(l); p_list_free(l); }
 static void st_ini(void) { PIniFile *f = p_ini_file_new(ini_path); PList *l, *c; if (p_ini_file_parse(f, NULL)) { p_ini_file_parse(f, NULL); l = p_ini_file_sections(f); for (c = l; c; c = c->next) p_free(c->data); p_list_free(l); l = p_ini_file_parameter_list(f, "lists", "l"); for (c = l; c; c = c->next) p_free(c->data); p_list_free(l); } p_ini_file_free(f); f = p_ini_file_new("/nonexistent/file.ini"); p_ini_file_parse(f, NULL); p_ini_file_free(f); }
 static void st_crypto(void) { int t; for (t = (int)P_CRYPTO_HASH_TYPE_MD5; t <= (int)P_CRYPTO_HASH_TYPE_GOST; t++) { PCryptoHash *h = p_crypto_hash_new((PCryptoHashType)t); pchar *s; p_crypto_hash_update(h, (const puchar *)"x", 1); s = p_crypto_hash_get_string(h); p_free(s); p_crypto_hash_free(h); } }
 static void st_error(void) { PError *e = p_error_new_literal(1, 2, "m"), *c = p_error_copy(e), *n = NULL; p_error_set_error_p(&n, 1, 2, "x"); p_error_clear(e); p_error_free(e); p_error_free(c); p_error_free(n); }
